@@ -361,6 +361,9 @@ fn strat(tier: Tier) -> BoxedStrategy<Case> {
         // LCS tables of this size are slow: Myers and Patience only
         SeqCase::full(if alg == 2 { 1 } else { alg }, a, b)
     });
+    // (left out of the coverage-guided stage, where every input stands for about twenty executions and
+    // the fuzzer would spend most of its runs on this heavy family)
+    let sparse = if std::env::var_os("VCHECK_FUZZ_STAGE").is_some() { seq_case(30, true, 1).prop_map(Case::Seq).boxed() } else { sparse.boxed() };
     prop_oneof![
         1 => sparse,
         16 => uniq_heavy.prop_map(Case::Seq),
